@@ -182,7 +182,7 @@ def sort_data_models(  # noqa: PLR0912
             update_action_parent = set(require_update_action_models).intersection(base_models)
             if not unresolved_model:
                 sorted_data_models[model.path] = model
-                if update_action_parent:
+                if update_action_parent or model.path in model.reference_classes:
                     require_update_action_models.append(model.path)
                 continue
             if not unresolved_model - unsorted_data_model_names:
